@@ -29,6 +29,10 @@ impl Rng {
     pub fn pick<'a, T>(&mut self, xs: &'a [T]) -> &'a T {
         &xs[self.below(xs.len())]
     }
+    /// pick a string out of a slice of &str / String
+    pub fn pick_str<'a, S: AsRef<str>>(&mut self, xs: &'a [S]) -> &'a str {
+        xs[self.below(xs.len())].as_ref()
+    }
 }
 
 pub struct Trace {
